@@ -9,6 +9,8 @@ fn seq_seed(seed: u64, idx: u64) -> u64 {
 }
 
 pub fn run_one(ctx: &Ctx, s: u64, st: &[AtomicU64; 10]) {
+    crashlog::set_case_fields(&["sequence_seed"]);
+    crashlog::note(crashlog::CASE, &[s]);
     match guarded(|| run_sequence(s)) {
         Ok((ops, q, _, feat)) => {
             st[0].fetch_add(ops as u64, Relaxed);
